@@ -65,6 +65,15 @@ public class JHarness {
       return;
     }
     // a crystal object is obtained once per distinct token and then reused for every later call, as a program using the library would do
+    if (argv.length >= 1 && argv[0].equals("--fields")) {
+      // "name type value" of every public static int/double field of Xraylib (after class initialisation, i.e. with the data file loaded)
+      for (Field f : Xraylib.class.getFields()) {
+        if (!Modifier.isStatic(f.getModifiers())) continue;
+        if (f.getType() == int.class) System.out.println(f.getName() + " int " + f.getInt(null));
+        else if (f.getType() == double.class) System.out.println(f.getName() + " double " + Double.toHexString(f.getDouble(null)));
+      }
+      return;
+    }
     Map<String, Crystal_Struct> crystals = new HashMap<>();
     Map<String, List<Method>> methods = new HashMap<>();
     for (Method m : Xraylib.class.getMethods()) if (Modifier.isStatic(m.getModifiers())) methods.computeIfAbsent(m.getName(), k -> new ArrayList<>()).add(m);
